@@ -290,15 +290,13 @@ class DataProxy:
         # Here, we can assume the key did not exist and thus user must have
         # supplied a 'default' (if they did not, the real setdefault() above
         # would have excepted.)
-        key, default = args
+        key = args[0]
+        default = args[1] if len(args) > 1 else None
         self._track_modification_of(key, default)
         return ret
 
     def update(self, *args: Any, **kwargs: Any) -> None:
-        if kwargs:
-            for key, value in kwargs.items():
-                self[key] = value
-        elif args:
+        if args:
             # TODO: complain if arity>1
             arg = args[0]
             if isinstance(arg, dict):
@@ -308,6 +306,8 @@ class DataProxy:
                 # TODO: be stricter about input in this case
                 for pair in arg:
                     self[pair[0]] = pair[1]
+        for key, value in kwargs.items():
+            self[key] = value
 
 
 class Config(DataProxy):
@@ -1264,6 +1264,9 @@ def excise(dict_: Dict[str, Any], keypath: Tuple[str, ...]) -> None:
             # Not there, nothing to excise
             return
         data = data[key]
+        if data is None:
+            # An ancestor is itself marked as deleted; nothing below it.
+            return
     if leaf_key in data:
         del data[leaf_key]
 
